@@ -119,10 +119,16 @@ class AppLog:
             import asyncio
 
             async def connect(sid, environ):
-                r = self._connect(sid, environ)
-                for d in self.connect_sends:
-                    await server.send(sid, d)
-                return r
+                self.busy += 1
+                try:
+                    r = self._connect(sid, environ)
+                    for d in self.connect_sends:
+                        await server.send(sid, d)
+                    if self.delay.get('connect'):
+                        await asyncio.sleep(self.delay['connect'])
+                    return r
+                finally:
+                    self.busy -= 1
 
             async def message(sid, data):
                 self.busy += 1
@@ -174,6 +180,7 @@ class AppLog:
                 r = self._connect(sid, environ)
                 for d in self.connect_sends:
                     server.send(sid, d)
+                nap('connect')
                 return r
 
             def message(sid, data):
